@@ -69,14 +69,12 @@ CLAIMS = {
          TB + "nx.enumerate_all_cliques contract validated per instance against the brute-force allCliques of the model; the shuffle is the stdlib Fisher-Yates run on scripted draws."),
  "C15": ("automated_exact: for EVERY finite simple motif (no connectedness or size hypothesis), every root and every commutative ring (hence as an identity of polynomials in phi and the u's) the model of automated_equation equals the exact expectation over independent edge occupation of the product of u over the other vertices of the root's component; built from connectedSubgraphs_spec (the backtracking lists each connected vertex set containing the root exactly once, fuel |V| suffices, the size cut-off is irrelevant), edgeCombinations_spec and the finset identity Perc.exactE_eq_autoE. value_independent_of_history / history_values_exact: for every sequence of calls on one evaluator each value equals the fresh value (caches hold structure only); a kernel-checked counterexample shows why distinct names are required.",
          TB + "the real evaluator runs on exact polynomial arguments and is compared coefficient by coefficient; networkx set-level semantics re-defined in Model/Graph.lean."),
- "C16": ("omega_closed; nocg_spec and QQ_spec (the brute-force counters count exactly the edge subsets whose deletion / retention leaves the graph connected, all n, k, substrates); "
-         "Qgen_eq_connCount: the Harary-Palmer recursion of Q(n,k) WITHOUT the Cayley shortcut equals the number of connected labelled graphs for EVERY n and k (classification of all graphs "
-         "by the component of a fixed vertex, relabelling invariance, Lemmas/HararyPalmer.lean); Q = Qgen for n <= 12 (kernel table) hence Q_eq_connCount_le12; for all n, Q = connCount is "
-         "proved EQUIVALENT to Cayley's formula for the brute-force counter (Q_eq_connCount_iff_cayley) — exactly what the code's shortcut n**(n-2) assumes; Q_trees, Q_complete, Q_zero_outside; "
-         "cycle_exact: for EVERY n >= 3 the chordless-cycle closed form equals the automated equation on C_n (hence, by C15, the exact bond-percolation expectation); automated_clique: for EVERY "
-         "tau the automated equation on K_tau equals the closed form with connCount in place of Q, so clique_exact_le12 is unconditional for tau <= 12 and clique_exact_of_cayley gives every tau "
-         "from Cayley's formula alone. PARTIAL: the single open statement is cayley_connCount (connCount n (n-1) = n^(n-2)), proved here only for n <= 12 (cayley_le12); the harness compares "
-         "the clique form as a polynomial identity for tau <= 7 and Q rows to n = 14.",
+ "C16": ("FULL. omega_closed; nocg_spec and QQ_spec (the brute-force counters count exactly the edge subsets whose deletion / retention leaves the graph connected, all n, k, substrates); "
+         "Q_eq_connCount: for EVERY n >= 1 and k the recursive counter Q(n,k), including its Cayley shortcut, equals the number of connected labelled graphs — from Qgen_eq_connCount (the "
+         "Harary-Palmer classification of all graphs by the component of a fixed vertex, Lemmas/HararyPalmer.lean) and cayley (Cayley's formula for the brute-force counter, proved by a "
+         "rooted-forest recursion, Lemmas/Cayley.lean); Q_eq_QQ (recursive = brute-force implementation, all n, k); cycle_exact: for EVERY n >= 3 the chordless-cycle closed form equals the "
+         "automated equation on C_n; clique_exact: for EVERY tau >= 1 the clique closed form equals the automated equation on K_tau (automated_clique + Q_eq_connCount); by C15 both closed forms "
+         "are the exact bond-percolation expectation over any commutative ring. The harness additionally compares the real functions as polynomial identities for tau <= 7, n <= 12 and Q rows to n = 14.",
          TB + "lru_cache assumed transparent; the equations run on exact polynomial arguments."),
  "C17": ("message_is_expectation (every update is the exact expectation of its motif, from C15), neighbour_product_is_other_motifs (under a consistent cover whose motifs pairwise share at most one vertex), theoretical_formula, range (result and every message in [0,1] for every sweep count), zero_at_zero (iterations >= 1; kernel-checked that 0 sweeps gives a non-zero value), monotone (for EVERY iteration count, by induction over the individual in-place updates using Perc.exactE_antitone), fixed_point_stable, history_independent. PARTIAL: converges_full (the 25-sweep iterate is the fixed point) is analysis and is not proved; the harness compares 1-3 sweeps exactly and the default 25 sweeps in double precision to 1e-9.",
          TB + "labels are taken in parsed form; the real label parser is checked by the harness against the generating structure; Python floats are outside the model except for the bit-exact comparison of the 25-sweep run to 1e-9."),
